@@ -18,6 +18,28 @@ def _flatten_add(e):
     return [e]
 
 
+def is_paren_wrapper(crate, path):
+    """a crate-local helper `fn parenthesized(inner) = "(" + inner + ")"`: its single parameter is printed between a
+    literal "(" and a literal ")" """
+    fn = crate.hir.get(path or "")
+    if fn is None:
+        return False
+    ps = [p for p in fn["params"] if p.get("k") == "Binding"]
+    if len(ps) != 1:
+        return False
+    pid = ps[0]["id"]
+    chain = _flatten_add(fn["body"])
+
+    def mentions(n):
+        return any(x.get("k") == "Path" and x["res"].get("r") == "local" and x["res"].get("id") == pid for x in walk(n))
+
+    def lit(n, ch):
+        return (not mentions(n)) and any(y.get("k") == "Lit" and isinstance(y.get("lit"), dict) and y["lit"].get("v") == ch for y in walk(n))
+
+    idx = [i for i, c in enumerate(chain) if mentions(c)]
+    return len(idx) == 1 and 0 < idx[0] < len(chain) - 1 and lit(chain[idx[0] - 1], "(") and lit(chain[idx[0] + 1], ")")
+
+
 class WPEval:
     def __init__(self, crate, fn, adt=TYPED_E, body=None, pid=None, depth=0):
         self.crate = crate
@@ -153,6 +175,13 @@ class WPEval:
             return ("paren", e)
         if len(chain) > 1 and s_.get("k") in ("If", "Match", "Block"):
             return self.value(s_, env)
+        if s_.get("k") == "Call" and len(s_.get("args", [])) == 1 and not self._is_param(s_["args"][0]) and self._mentions_param(s_["args"][0]):
+            # a helper applied to the printed operand: `parenthesized(expr.pretty_print())`
+            if is_paren_wrapper(self.crate, callee(s_)):
+                return ("paren", e)
+            if (callee(s_) or "") in self.crate.hir:
+                raise Unknown("operand printed through the helper " + str(callee(s_)))
+            return self.value(s_["args"][0], env)
         if s_.get("k") == "Call" and len(s_.get("args", [])) == 1 and self._is_param(s_["args"][0]):
             c = callee(s_) or ""
             sub = self.crate.hir.get(c)
